@@ -274,7 +274,8 @@ def runtime_fresh(idx, rep, rid):
     it = Interp(idx, types={"cls": "RuntimeDataCollector", "self": "RuntimeDataCollector"}, inline_all={"RuntimeDataCollector"}, unknown_calls="residual")
     st = {"cp.is_valid": True, "cp.headers": ["a"], "cp.stopped": False, "cp.line_monitor": Obj("lm"), "cp.scanner": Obj("sc"), "cp.lines": None,
           "lm.physical_line_number": 3, "lm.physical_line_count": 4, "lm.data_line_count": 3, "cp.scan_count": 2, "cp.match_count": 1,
-          "cp.current_scan_count": 2, "cp.current_match_count": 1}
+          "cp.current_scan_count": 2, "cp.current_match_count": 1, "lm.data_end_line_count": 9, "cp.identity": "ID", "cp.delimiter": ";", "cp.quotechar": "'",
+          "sc.filename": "F.csv", "cp.rows_time": 0.0, "cp.last_row_time": 0.0}
     ps = it.run_program(program, st)
     bad = None
     for p in ps:
@@ -286,6 +287,11 @@ def runtime_fresh(idx, rep, rid):
         second = {k: r2.get(k) for k in ("valid", "headers", "stopped")}
         if first != {"valid": True, "headers": ["a"], "stopped": False}:
             bad = bad or f"first collection shows {first} for a valid, running csvpath with headers ['a']"
+        # the counters and positions $.csvpath.<field> prints are the csvpath's own
+        wantf = {"count_lines": 4, "line_number": 3, "count_scans": 2, "count_matches": 1, "total_lines": 9, "identity": "ID", "delimiter": ";", "quotechar": "'", "file_name": "F.csv"}
+        gotf = {k: r1.get(k, "<absent>") for k in wantf}
+        if gotf != wantf:
+            bad = bad or f"$.csvpath fields of a csvpath at line 3 (4th physical line, 2 scanned, 1 matched, 9 data lines in all): {gotf}, documented {wantf}"
         if second != {"valid": False, "headers": ["b"], "stopped": True}:
             bad = bad or f"after the verdict, the headers and the stopped flag changed within the line the second collection still shows {second} (a print() later on the same line prints stale $.csvpath values)"
     rep.check(bad is None and len(ps) >= 1, rid, f"{fi.file}::RuntimeDataCollector.collect reads the csvpath every time", bad or f"{len(ps)} paths", K.where(fi, fi.node))
